@@ -10,7 +10,7 @@ DESIGN_REF = "DESIGN.md §9 C09, §12.C09"
 COQ_TARGETS = ["Properties/C09", "Pins/C09"]
 THEOREMS = [("PdfV.Properties.C09", n) for n in
             ["C09_read_your_writes", "C09_get_coherent", "C09_byte_len_fits", "C09_xref_roundtrip", "C09_prefix",
-             "C09_save_layout", "C09_reload", "C09_reload_untouched", "C09_failed_save_recovers", "C09_second_save",
+             "C09_save_layout", "C09_parse_ser", "C09_reload", "C09_reload_stream", "C09_reload_untouched", "C09_failed_save_recovers", "C09_second_save",
              "C09_wf_preserved"]]
 ANCHORS = ["file.rs", "xref.rs"]
 if os.environ.get("VP_DEV"):
@@ -20,8 +20,8 @@ TRUSTED_BASE = ["coqc 8.16.1 kernel (vm_compute for table lemmas and witnesses; 
                 "gen/extract_storage.py (regenerates the literals of save / write_stream / byte_len / XRefTable::new from file.rs, xref.rs)",
                 "Extraction + ExtrOcamlBasic, ocamlfind ocamlopt 4.13.1, coq/driver/main.ml",
                 "harness pdfh (harness/src/modes/storage.rs), tools/vplib, tools/oracle/pdfwriter.py + canon.py (base files and expected values by construction)"]
-ASSUMPTIONS = ["oracle premise parse_ser: parse_indirect_object at the position of `id gen obj\\n` ++ serialize(v) ++ `\\nendobj\\n` returns (id, gen, v) whatever follows (this is property C04; tested on every saved object of every case)",
-               "oracle premise parse_stable: an object that parses inside a buffer parses to the same value when bytes are appended to the buffer (tested: untouched objects after every save)",
+ASSUMPTIONS = ["(discharged) parse_ser is now the theorem C09_parse_ser: Syn.Parser.parse_indirect_object on `id gen obj\\n` ++ Syn.Serialize.ser(v) ++ `\\nendobj\\n` returns (id, gen, v) for every storable v (C04 composed with C03)",
+               "oracle premise parse_stable (C09_reload_untouched only): an object that parses inside a buffer parses to the same value when bytes are appended to the buffer (tested: untouched objects after every save)",
                "Rust usize/u64 arithmetic as written into the model (no overflow below 2^64)"]
 RULE = ("base files written by the specification-side writer (classic table / xref stream, compressed objects in an object stream, "
         "bytes before the header, generations > 0, one or two revisions, optional /Info), histories of 1-25 operations over "
